@@ -584,7 +584,34 @@ Proof. intros Ho. rewrite !expand_param_S. repeat sim_step IH. Qed.
 
 Lemma sim_ch hid h s ok : orel k (s_out s) ok ->
   rsim k s (call_helper reg data ft (S f) hid h s) (call_helper reg data ft (S f) hid h (set_out s ok)).
-Proof. intros Ho. rewrite !call_helper_S. cbv zeta. repeat sim_step IH. Qed.
+Proof.
+  intros Ho. rewrite !call_helper_S. cbv zeta.
+  destruct hid; try solve [repeat sim_step IH].
+  (* HLocal: the capture bracket of the "c:" mode — both runs render the body
+     into the same fresh buffer *)
+  cbn [has_call_inner]. destruct (starts_with _ name); [|repeat sim_step IH].
+  cbn [hv_tpl]. destruct (hv_tpl h) as [t|].
+  2:{ autorewrite with pushout. apply rsim_ret; [reflexivity|exact Ho]. }
+  set (txt := `"local(" ++ name ++ `":" ++ params_text (hv_params h) ++ `")").
+  change (set_out (log_entry (set_out s ok) txt) (out_new None))
+    with (set_out (log_entry s txt) (out_new None)).
+  change (s_out (log_entry (set_out s ok) txt)) with ok.
+  change (s_out (log_entry s txt)) with (s_out s).
+  destruct (render_template reg data ft f t (set_out (log_entry s txt) (out_new None)))
+    as [u s2|e s2|p|].
+  - assert (Hbase : forall (r rk : rres unit),
+              rsim k (set_out s2 (s_out s)) r rk -> rsim k s r rk).
+    { intros r rk [H1 H2]. split; [exact H1|exact H2]. }
+    apply Hbase.
+    change (set_out s2 ok) with (set_out (set_out s2 (s_out s)) ok).
+    apply rsim_rbind; [apply rsim_out_write; exact Ho|].
+    intros _ s3 o3 Ho3. apply rsim_rbind; [apply rsim_out_write; exact Ho3|].
+    intros _ s4 o4 Ho4. apply rsim_out_write; exact Ho4.
+  - change (set_out s2 ok) with (set_out (set_out s2 (s_out s)) ok).
+    apply rsim_err; [reflexivity|exact Ho].
+  - split; [intros ? [] | left; reflexivity].
+  - split; [intros ? [] | left; exact I].
+Qed.
 
 Lemma sim_ed dt s ok : orel k (s_out s) ok ->
   rsim k s (eval_decorator reg data ft (S f) dt s) (eval_decorator reg data ft (S f) dt (set_out s ok)).
